@@ -32,15 +32,15 @@ type V struct {
 }
 
 type Op struct {
-	Op  string `json:"op"`
-	X   string `json:"x"`
-	Y   string `json:"y"`
-	I   V      `json:"i"`
-	J   V      `json:"j"`
-	K   V      `json:"k"`
-	V   V      `json:"v"`
-	S   string `json:"s"`
-	Cap int    `json:"cap"`
+	Op  string   `json:"op"`
+	X   string   `json:"x"`
+	Y   string   `json:"y"`
+	I   V        `json:"i"`
+	J   V        `json:"j"`
+	K   V        `json:"k"`
+	V   V        `json:"v"`
+	S   string   `json:"s"`
+	Cap int      `json:"cap"`
 	Cs  []string `json:"cs"`
 }
 
@@ -64,22 +64,22 @@ type Share struct {
 }
 
 type Line struct {
-	Ev     string            `json:"ev"`
-	O      *Op               `json:"o,omitempty"`
-	Res    *Res              `json:"res,omitempty"`
-	Post   map[string]PV     `json:"post,omitempty"`
-	Share  []Share           `json:"share"`
-	Maps   map[string][][]V  `json:"maps,omitempty"`
-	Fields map[string]V      `json:"fields,omitempty"`
-	Src    string            `json:"src,omitempty"`
-	NoPost bool              `json:"nopost,omitempty"`
+	Ev     string           `json:"ev"`
+	O      *Op              `json:"o,omitempty"`
+	Res    *Res             `json:"res,omitempty"`
+	Post   map[string]PV    `json:"post,omitempty"`
+	Share  []Share          `json:"share"`
+	Maps   map[string][][]V `json:"maps,omitempty"`
+	Fields map[string]V     `json:"fields,omitempty"`
+	Src    string           `json:"src,omitempty"`
+	NoPost bool             `json:"nopost,omitempty"`
 }
 
 var vars = []string{"a", "b", "c", "m", "n", "ta", "st", "s", "t", "tm", "sv"}
 var sliceVars = []string{"a", "b", "c", "ta"}
 var nilV = V{T: "nil"}
 
-func intV(n int64) V { return V{T: "int", I: n} }
+func intV(n int64) V  { return V{T: "int", I: n} }
 func strV(s string) V { return V{T: "str", S: s} }
 
 func lit(v V) string {
